@@ -1096,6 +1096,11 @@ func (f *Frame) callByContract(fn *ssa.Function, con *Contract, args [][]*Term, 
 		u.Trusted["assumed (not yet verified) contract of a /repo function: "+con.Target] = true
 	}
 	// results: fresh
+	type freshObj struct {
+		obj  *Term
+		size int64
+	}
+	var freshObjs []freshObj
 	var resVals [][]*Term
 	var flat []*Term
 	sig := fn.Signature
@@ -1108,6 +1113,9 @@ func (f *Frame) callByContract(fn *ssa.Function, con *Contract, args [][]*Term, 
 			case *types.Pointer, *types.Slice:
 				v[0] = f.allocObj()
 				v[1] = tb.BV(64, 0)
+				if pt, ok := sig.Results().At(i).Type().Underlying().(*types.Pointer); ok {
+					freshObjs = append(freshObjs, freshObj{v[0], u.W.layout.Size(pt.Elem())})
+				}
 			}
 		}
 		resVals = append(resVals, v)
@@ -1138,6 +1146,21 @@ func (f *Frame) callByContract(fn *ssa.Function, con *Contract, args [][]*Term, 
 	// objects allocated by the callee live in the id band [limit, limit+2^16); everything the
 	// caller (and the contract stub) allocates afterwards comes after it
 	u.objCtr += 1 << 16
+	if len(freshObjs) > 0 {
+		// the content of a newly allocated result is arbitrary, and the references it holds may
+		// designate objects the callee allocated (its id band) - it is not a piece of the
+		// initial memory, whose references are input-world objects
+		bound := tb.Add(limit, tb.BV(32, 1<<16))
+		f.cur.mem = f.cur.mem.clone()
+		for _, fo := range freshObjs {
+			if fo.size == 0 {
+				continue
+			}
+			for k, m := range f.cur.mem.m {
+				f.cur.mem.m[k] = u.mc.HavocRange(m, fo.obj, tb.BV(64, 0), tb.BV(64, fo.size), u.mc.NewBase("hv", m.sort, bound))
+			}
+		}
+	}
 	pre := f.cur.mem
 	st := f.evalStub(con, vals, pre, nil, limit, nil)
 	trustPre := false
